@@ -179,3 +179,6 @@ def run(ctx):
     PANTR.attach(ctx, extra_oracle=on_run)
     from vf.props import ZEROFPR
     ZEROFPR.attach(ctx, extra_oracle=on_run)
+    # whole-loop tie for FISTA: verified model (FistaLoop.v) vs the real solver on whole runs (fixed-step / backtracking, late ŷ evaluation)
+    from vf.props import FISTA
+    FISTA.attach(ctx, extra_oracle=on_run)
